@@ -316,11 +316,15 @@ class Normalizer(ast.NodeTransformer):
         def _unit(e):
             return isinstance(e, ast.Constant) and isinstance(e.value, (str, int, float, type(None))) or _plain_ref(e)
 
+        def _construction(e):
+            """ClassName(...) with plain arguments: a fresh object built for this element only"""
+            return isinstance(e, ast.Call) and isinstance(e.func, ast.Name) and e.func.id[:1].isupper() and not any(isinstance(n, (ast.Lambda, ast.NamedExpr, ast.Yield, ast.Await)) for n in ast.walk(e))
+
         tnames = [node.target.id] if isinstance(node.target, ast.Name) else [e.id for e in node.target.elts] if isinstance(node.target, ast.Tuple) and all(isinstance(e, ast.Name) for e in node.target.elts) else None
         if (
             isinstance(node.iter, (ast.Tuple, ast.List)) and 1 <= len(node.iter.elts) <= 8 and tnames and not node.orelse and len(node.body) <= 8
             and (
-                all(_unit(e) for e in node.iter.elts) if isinstance(node.target, ast.Name)
+                (all(_unit(e) for e in node.iter.elts) or (all(_construction(e) for e in node.iter.elts) and sum(1 for b in node.body for n in ast.walk(b) if isinstance(n, ast.Name) and n.id == node.target.id and isinstance(n.ctx, ast.Load)) == 1)) if isinstance(node.target, ast.Name)
                 else all(isinstance(e, (ast.Tuple, ast.List)) and len(e.elts) == len(tnames) and all(_unit(x) for x in e.elts) for e in node.iter.elts)
             )
             and not _binds_loop_exit(node.body)
@@ -473,10 +477,19 @@ class Normalizer(ast.NodeTransformer):
         # dict.fromkeys(("a", "b"), v) -> {"a": v, "b": v}      (v is an immutable value / a look-up: sharing it is not observable)
         if (
             isinstance(node.func, ast.Attribute) and node.func.attr == "fromkeys" and isinstance(node.func.value, ast.Name) and node.func.value.id == "dict"
-            and len(node.args) == 2 and not node.keywords and isinstance(node.args[0], (ast.Tuple, ast.List)) and 1 <= len(node.args[0].elts) <= 8
+            and 1 <= len(node.args) <= 2 and not node.keywords and isinstance(node.args[0], (ast.Tuple, ast.List)) and 1 <= len(node.args[0].elts) <= 8
             and all(isinstance(k, ast.Constant) and isinstance(k.value, str) for k in node.args[0].elts)
         ):
-            return ast.copy_location(ast.Dict(keys=list(node.args[0].elts), values=[copy.deepcopy(node.args[1]) for _ in node.args[0].elts]), node)
+            val = node.args[1] if len(node.args) == 2 else ast.Constant(value=None)
+            return ast.copy_location(ast.Dict(keys=list(node.args[0].elts), values=[copy.deepcopy(val) for _ in node.args[0].elts]), node)
+        # dict(zip(("a", "b"), (x, y))) -> {"a": x, "b": y}
+        if (
+            isinstance(node.func, ast.Name) and node.func.id == "dict" and len(node.args) == 1 and not node.keywords and isinstance(node.args[0], ast.Call)
+            and isinstance(node.args[0].func, ast.Name) and node.args[0].func.id == "zip" and len(node.args[0].args) == 2
+            and all(isinstance(a, (ast.Tuple, ast.List)) for a in node.args[0].args) and len(node.args[0].args[0].elts) == len(node.args[0].args[1].elts) <= 8
+            and all(isinstance(k, ast.Constant) and isinstance(k.value, str) for k in node.args[0].args[0].elts)
+        ):
+            return ast.copy_location(ast.Dict(keys=list(node.args[0].args[0].elts), values=list(node.args[0].args[1].elts)), node)
         # f(**{"a": x, "b": y}) -> f(a=x, b=y)
         if any(k.arg is None and isinstance(k.value, ast.Dict) for k in node.keywords):
             kws = []
